@@ -50,6 +50,7 @@ import EsbuildModel.Impl.ResolveWalk
 import EsbuildModel.Impl.Glob
 import EsbuildModel.Impl.PartDepsDriver
 import EsbuildModel.Impl.ScopesSyntax
+import EsbuildModel.Impl.JsonDriver
 
 open EsbuildModel
 
@@ -110,6 +111,7 @@ def dispatch (kernel : String) (args : List String) : String :=
   | "glob" => Glob.driver args
   | "partdeps" => PartDeps.driver args
   | "scope" => Scopes.driverAll args
+  | "jsonrt" => Json.driver args
   | _ => "bad-kernel"
 
 partial def loop (hin hout : IO.FS.Stream) : IO Unit := do
